@@ -1,12 +1,17 @@
 #!/bin/bash
 # usage: try_seeded.sh <dir with patch.diff> <property> [more properties]
-# applies the patch to /repo, runs ./check for the given properties, restores /repo.  Prints detected/missed per property.
+# Runs ./check for the given properties against a scratch worktree of /repo (current HEAD) with the patch applied
+# (VF_REPO points the driver at it; evidence and replay files of these runs go to a scratch dir, not /verif/evidence).
+# Equivalent to `git -C /repo apply; ./check; git -C /repo checkout -- .` but does not disturb /repo.
 d=$1; shift
+tag=$(basename $(dirname $d))_$(basename $d)_$$
+wt=/tmp/ts_$tag
+git -C /repo worktree add -q --detach $wt HEAD || exit 2
+trap "git -C /repo worktree remove --force $wt; rm -rf /var/tmp/ts_ev_$tag" EXIT
+git -C $wt apply $d/patch.diff || { echo "patch does not apply"; exit 2; }
 cd /verif
-git -C /repo apply $d/patch.diff || { echo "patch does not apply"; exit 2; }
 for p in "$@"; do
-  out=$(./check $p 2>&1); rc=$?
+  out=$(VF_REPO=$wt VF_EVIDENCE_DIR=/var/tmp/ts_ev_$tag VF_REPLAY_DIR=/var/tmp/ts_ev_$tag/replay ./check $p 2>&1); rc=$?
   nv=$(echo "$out" | grep -c '^VIOLATION')
-  echo "  $p: exit=$rc violations=$nv $(echo "$out" | grep '^VIOLATION' | head -2 | sed 's/.*\[\(.*\)\].*/[\1]/' | tr '\n' ' ') $(echo "$out" | grep '^MACHINERY' | head -2 | cut -c1-160)"
+  echo "  $p: exit=$rc violations=$nv $(echo "$out" | grep '^VIOLATION' | head -3 | sed 's/.*\[\(.*\)\].*/[\1]/' | tr '\n' ' ') $(echo "$out" | grep '^MACHINERY' | head -2 | cut -c1-160)"
 done
-git -C /repo checkout -- .
